@@ -330,6 +330,8 @@ func runC09(p *Prog, r *Report) {
 		dataPkgs: []string{"font/opentype", "font/opentype/tables", "font/cff"}, floor: 10})
 	r.Explain = append(r.Explain, "R-LOOP: in the font-reading packages, every loop whose next position is taken from the data (a header phi re-assigned on the back edge from a decoded or loaded value that is not an arithmetic step of the loop's own variables, and used as index/key/bound inside the loop) has a counted exit — a cycle of links in a file cannot keep it running.")
 	ruleLoop(p, r, []string{"font", "font/opentype", "font/opentype/tables", "font/cff", "font/cff/interpreter"})
+	r.Explain = append(r.Explain, "R-DIV: every integer division or remainder in the font packages whose divisor is not a non-zero constant has a provably non-zero divisor (dominating test excluding zero, switch cases, non-zero at every store of the field / every return of the callee / every call site of the parameter, 1<<n), or a reviewed reason.")
+	ruleDiv(p, r, []string{"font", "font/opentype", "font/opentype/tables", "font/cff", "font/cff/interpreter"}, reviewedDivs(), 5)
 	r.Explain = append(r.Explain, "R-COUNT: for every signed integer parameter that sizes a make in its function without a sign test there, every in-module call site passes an argument that is provably non-negative (conversion from an unsigned type, len/cap, constants, sums/products of those, a difference guarded by the comparison that makes it non-negative, or a parameter for which the same holds at all its call sites).")
 	ruleCount(p, r, []string{"font/opentype/tables", "font/opentype", "font/cff", "font"}, 10)
 	r.Assumptions = append(r.Assumptions,
@@ -345,6 +347,7 @@ func controlsC09(cp *Prog, r *Report) {
 	}, "(*rd.Loader).tableBad", "rd.parseBad")
 	expectControl(r, "R-COUNT", func(cr *Report) { ruleCount(cp, cr, []string{"rd"}, 3) }, "rd.parseN(count)<-rd.callBadDiff")
 	expectControl(r, "R-LOOP", func(cr *Report) { ruleLoop(cp, cr, []string{"rd"}) }, "rd.followBad/loop@g")
+	expectControl(r, "R-DIV", func(cr *Report) { ruleDiv(cp, cr, []string{"rd"}, nil, 3) }, "rd.divSwitchBad/kind", "rd.divBad/ppem")
 }
 
 // ---- R-COUNT ------------------------------------------------------------------------------------------------------
@@ -743,6 +746,29 @@ func edgeImpliesNonNeg(pred, blk *ssa.BasicBlock, e ssa.Value) bool {
 	return false
 }
 
+// shiftMax: the largest constant the shift amount can take according to the dominating equality tests (see smallShift).
+func (c *nonNegCtx) shiftMax(n ssa.Value, at ssa.Instruction) (int64, bool) {
+	if k, ok := intConst(n); ok {
+		return k, k >= 0
+	}
+	if at == nil || !c.smallShift(n, at) {
+		return 0, false
+	}
+	f := at.Parent()
+	base := stripConv(n)
+	var max int64 = -1
+	for _, b := range f.Blocks {
+		if iff := ifOf(b); iff != nil {
+			if bo, ok := iff.Cond.(*ssa.BinOp); ok && bo.Op == token.EQL && (stripConv(bo.X) == base || sameSource(stripConv(bo.X), base)) {
+				if k, ok := intConst(bo.Y); ok && k >= 0 && k < 32 && k > max {
+					max = k
+				}
+			}
+		}
+	}
+	return max, max >= 0
+}
+
 // smallShift: the shift amount is restricted to constants below 32 by dominating equality tests (switch cases) on it.
 func (c *nonNegCtx) smallShift(n ssa.Value, at ssa.Instruction) bool {
 	if k, ok := intConst(n); ok {
@@ -767,4 +793,11 @@ func (c *nonNegCtx) smallShift(n ssa.Value, at ssa.Instruction) bool {
 	// cut all true edges: if `at` is still reachable from the entry, some path reaches it without matching a small constant
 	hit, _ := reachableFrom(c.p, f, entryPoint(f), func(in ssa.Instruction) bool { return in == at }, nil, cutBranch(true, ifs...))
 	return hit == nil
+}
+
+func reviewedDivs() map[string]string {
+	return map[string]string{
+		"(*font/opentype/tables.AATStateTable).parseEntries/.StateSize":                  "the generated parsers call parseStates first, which rejects StateSize < 4, and return on its error before parseEntries runs",
+		"(*harfbuzz.complexShaperArabic).postprocessGlyphs/nCopies+1*nRepeating": "guarded by nRepeating > 0, and nCopies was just incremented from a value >= 0 (it is 0 or a/b-1 with a > b > 0)",
+	}
 }
